@@ -1057,7 +1057,13 @@ func limitWrite(g *Gen, kind string, w int) {
 
 func genLimit(r *rand.Rand, id string, size int, total int) []string {
 	g := &Gen{r: r}
-	peers := g.r.Perm(total)[:1+g.pick(3)]
+	// a third of the scenarios start with a replica that lags behind (needs three peers)
+	lag := total >= 3 && g.pick(3) == 0
+	np := 1 + g.pick(3)
+	if lag {
+		np = 3
+	}
+	peers := g.r.Perm(total)[:np]
 	kind := []string{"log", "kv", "doc"}[g.pick(3)]
 	// in a third of the scenarios the database is opened with a custom sort function (it must govern the
 	// store's own log exactly as it governs the logs Load builds)
@@ -1068,7 +1074,7 @@ func genLimit(r *rand.Rand, id string, size int, total int) []string {
 	g.add("scn %s kind=%s acl=%s peers=%s%s", id, kind, joinInts(peers), joinInts(peers), sortfn)
 	p := peers[0]
 	n := 0
-	if len(peers) >= 3 && g.pick(3) == 0 {
+	if lag {
 		// a replica that lags: r holds a prefix of w's chain, the observer all of it; the observer is
 		// reopened with a limit (newest entries only) and r announces what it has — entries BELOW the
 		// heads of the partially loaded log arrive, the heads do not move, the view must still follow
@@ -1339,6 +1345,12 @@ func genEvents(r *rand.Rand, id string, size int, total int) []string {
 		g.add("scn %s kind=%s acl=%s peers=%s", id, kind, joinInts(peers), joinInts(peers))
 		for _, p := range peers {
 			g.add("evwatch %d", p)
+		}
+		if kind != "log" && g.pick(2) == 0 {
+			// readers that keep the view busy while writes and merges update it
+			for _, p := range peers {
+				g.add("evspin %d 3", p)
+			}
 		}
 		steps := 3 + g.pick(size)
 		for i := 0; i < steps; i++ {
